@@ -8,6 +8,9 @@ CONSTANTS
   OldVersions = TRUE
   StartRecipes = {"queued", "xfer_some", "aborted", "complete"}
   MutOps = {"queue", "abort", "pause", "fail_nr"}
+  SetVals = {"some", "full", "zero", "empty", "one", "onez"}
+  PeerFaults = TRUE
+  PeerToggles = TRUE
   MaxInit = 2
   MaxPresent = 4
   MaxOps = 10
